@@ -173,6 +173,10 @@ type Runner struct {
 	MaxSamples int
 	// Compare overrides plain string equality (e.g. answers containing "?" wildcards); optional.
 	Compare func(req, impl, model string) bool
+	// ShrinkBudget bounds the re-executions spent on shrinking one disagreement (default 60) and
+	// ShrinkMax the number of disagreements that get shrunk (default 40); lower them when one
+	// execution of a case is expensive.
+	ShrinkBudget, ShrinkMax int
 }
 
 func NewRunner(f *Flags, harness string, impl Impl, rule string) *Runner {
@@ -253,7 +257,11 @@ func (r *Runner) Flush() {
 }
 
 func (r *Runner) record(d Disagreement) {
-	if d.Case.Domain && len(r.Res.Disagreements) < 40 {
+	max := 40
+	if r.ShrinkMax > 0 {
+		max = r.ShrinkMax
+	}
+	if d.Case.Domain && len(r.Res.Disagreements) < max {
 		r.shrink(&d)
 	}
 	d.Key = d.Case.Key
@@ -302,6 +310,9 @@ func (r *Runner) firstDiff(lines []string) (int, string, string) {
 func (r *Runner) shrink(d *Disagreement) {
 	lines := append([]string{}, d.Case.Lines[:d.LineNo+1]...)
 	budget := 60
+	if r.ShrinkBudget > 0 {
+		budget = r.ShrinkBudget
+	}
 	lo := 0
 	if len(lines) > 0 && strings.HasPrefix(lines[0], "case") {
 		lo = 1
